@@ -371,8 +371,10 @@ def check_model(chk: harness.Check, name: str, text: str, rng, n_instances: int,
 
 
 def worker(args) -> Dict[str, Any]:
-    argv, shard, n_shards, n_models, n_instances, n_mutations = args
+    argv, shard, n_shards, n_models, n_instances, n_mutations = args[:-1]
+    mins = args[-1]
     chk = harness.Check("C10", "exploration", RULE, argv)
+    chk.set_worker_minimums(mins, n_shards)
     budget = chk.wall_budget(150, 900)
     models: List[Tuple[str, str]] = []
     if shard == 0:
@@ -384,7 +386,7 @@ def worker(args) -> Dict[str, Any]:
         )
         models.append((f"mmg/{chk.seed}/{i}", m.text))
     for idx, (name, text) in enumerate(models):
-        if chk.elapsed() > budget:
+        if chk.should_stop(budget):
             chk.count("models_skipped_for_budget", len(models) - idx)
             break
         check_model(chk, name, text, chk.rng("inst", name), n_instances, n_mutations)
@@ -397,9 +399,15 @@ def main(argv) -> int:
     n_instances = chk.pick(24, 100)
     n_mutations = chk.pick(12, 40)
     n_shards = 12
+    mins = {
+        "json_roundtrips": chk.pick(300, 2000),
+        "xml_roundtrips": chk.pick(100, 600),
+        "json_mutations": chk.pick(2000, 20000),
+        "xml_mutations": chk.pick(1000, 8000),
+    }
     with concurrent.futures.ProcessPoolExecutor(max_workers=n_shards) as pool:
         jobs = [
-            pool.submit(worker, (list(argv), s, n_shards, n_models, n_instances, n_mutations))
+            pool.submit(worker, (list(argv), s, n_shards, n_models, n_instances, n_mutations, mins))
             for s in range(n_shards)
         ]
         for job in jobs:
@@ -407,10 +415,8 @@ def main(argv) -> int:
                 chk.merge(job.result())
             except Exception as err:
                 chk.harness_error(f"worker failed: {err!r}")
-    chk.require_min("json_roundtrips", chk.pick(300, 2000))
-    chk.require_min("xml_roundtrips", chk.pick(100, 600))
-    chk.require_min("json_mutations", chk.pick(2000, 20000))
-    chk.require_min("xml_mutations", chk.pick(1000, 8000))
     chk.assume("XML round trip judged only for instances whose strings consist of XML 1.0 characters")
     chk.assume("floats compare with == (nan equals nan); the sign of zero is not judged")
+    for counter_name, minimum in mins.items():
+        chk.require_min(counter_name, minimum)
     return chk.finish()
